@@ -27,37 +27,37 @@ META = {
     'C06': ('model_checking', 'explicit-state BFS over workspace states (edit/run/run -f/delete-output) with exact directory digests; exhaustive output_filepath injectivity sweep', 'DESIGN §4 C06',
             'every reachable workspace state is checked: files after run == files after run -f',
             'real CLI run in a child process per transition; harness-assigned mtimes'),
-    'C07': ('exploration', 'deviation-bounded exhaustive mutation (token/byte level) of seed programs; outcome class oracle', 'DESIGN §4 C07',
+    'C07': ('exploration', 'deviation-bounded exhaustive mutation (token/byte level, annotation removal, undecodable bytes, nesting depth) of seed programs in memory and on disk, every parsable text twice against the cache of its first run, bin/transpile histories with and without -p; outcome class oracle', 'DESIGN §4 C07',
             'all single deviations of the seed programs (pairs in thorough) run through parse/load/type_of/transpile; outcome must be ok or Errors.Error',
             'seed programs; token alphabet; 10 s termination budget per case'),
     'C08': ('exploration', 'exhaustive enumeration of (identifier, fresh name) renamings; metamorphic oracle transpile(r(P)) == r(transpile(P))', 'DESIGN §4 C08',
             'every single renaming (pairs in thorough) over the stated name alphabet is checked on every program of the corpus',
             'fresh names occur nowhere else in the program or output, so textual renaming of the output is sound'),
-    'C09': ('exploration', 'exhaustive enumeration of node trees + deviation-bounded nested runs; identity-procedure oracle', 'DESIGN §4 C09',
+    'C09': ('exploration', 'exhaustive enumeration of node trees + deviation-bounded nested runs on one long-lived Procedure per worker (history), resolving-handler layer; identity-procedure oracle', 'DESIGN §4 C09',
             'every node of every enumerated tree is checked: handler kwargs are exactly the child results',
             'identity procedure; C02 sentence enumeration; real modules'),
     'C10': ('model_checking', 'exhaustive enumeration of labelled tree shapes (bijection laws) + explicit-state exploration of query orders on NodeResolver', 'DESIGN §4 C10',
             'all trees up to n entries; all prior-query sets/orders up to the bound on real parse trees',
             'EntryOfDict trees built by the harness'),
-    'C11': ('exploration', 'exhaustive bounded derivation of sentences from the shipped Rules object; canonical tree comparison with CPython ast; single-token mutation layer', 'DESIGN §4 C11',
+    'C11': ('exploration', 'exhaustive bounded derivation of sentences from the shipped Rules object; canonical tree comparison with CPython ast; single-token mutation and lexeme-boundary layers judged against an independent context-free reference recogniser; canaries after every non-derived sentence (histories of length 2 on one parser)', 'DESIGN §4 C11',
             'all derivations up to the depth bound are parsed by the self-hosted engine and compared with CPython ast',
             'derivation enumerator over Rules; CPython ast; 3.13 shim'),
-    'C12': ('exploration', 'exhaustive enumeration of small rule sets; round trip pretty/parse/from_ast + fixed points on shipped grammars', 'DESIGN §4 C12',
+    'C12': ('exploration', 'exhaustive enumeration of small rule sets and their single-token deletions on one reused parser (canary after every rejection); round trip pretty/parse/from_ast, literal-terminal oracle, reference recogniser for the meta-grammar + fixed points on shipped grammars', 'DESIGN §4 C12',
             'all rule sets up to r rules of pattern depth d round-trip; shipped grammars reproduce their compiled rule modules byte for byte',
             'structural equality on Rules defined by the harness; 3.13 shim'),
     'C13': ('exploration', 'exhaustive enumeration of token sequences and layout rewrites; CPython tokenize as oracle + metamorphic layout relation', 'DESIGN §4 C13',
             'all token sequences up to length n over every operator and all single layout rewrites',
             'CPython tokenize; mapping between token classes'),
-    'C14': ('exploration', 'exhaustive enumeration over module sets; export/unload/import round trip compared symbol by symbol', 'DESIGN §4 C14',
+    'C14': ('exploration', 'exhaustive enumeration over module sets and over all 3-step revision histories of one module in one session; export/unload/import round trip compared symbol by symbol', 'DESIGN §4 C14',
             'every module of every generated/real module set round-trips through to_json/import_json',
             'real modules + generated schemas'),
-    'C15': ('exploration', 'exhaustive enumeration of parse trees; dumps/loads round trip compared field by field', 'DESIGN §4 C15',
+    'C15': ('exploration', 'exhaustive enumeration of parse trees and of hand-built lark trees (<= 4 entries x token values); dumps/loads, EntryStored and on-disk cache round trips compared field by field', 'DESIGN §4 C15',
             'every tree of the sentence enumeration and every real module round-trips',
             'lark trees from the working-tree grammar'),
-    'C16': ('exploration', 'exhaustive enumeration of parse trees; span re-lexing oracle and caret range oracle', 'DESIGN §4 C16',
+    'C16': ('exploration', 'exhaustive enumeration of parse trees (fresh, restored, loaded from disk by the application); span re-lexing oracle, restored == fresh spans, caret range oracle', 'DESIGN §4 C16',
             'every entry of every tree: tokens of the span slice equal the entry tokens; child spans nested',
             'lark lexer as reference tokenizer'),
-    'C17': ('exploration', 'exhaustive enumeration of constant expressions; CPython eval as oracle', 'DESIGN §4 C17',
+    'C17': ('exploration', 'exhaustive enumeration of constant expressions; CPython eval as oracle; one evaluator over several same-shaped modules and over revisions of one module (histories)', 'DESIGN §4 C17',
             'all expressions up to n operators over the literal alphabet',
             'CPython eval; 3.13 shim'),
     'C18': ('exploration', 'exhaustive enumeration of bracket-balanced fragments; reference splitter oracle and algebraic laws', 'DESIGN §4 C18',
